@@ -117,9 +117,22 @@ impl OpTable {
             .filter(|e| !e.2)
             .map(|e| format!("{} (since t={}ns)", e.0, e.1))
             .collect();
-        v.join("; ")
+        let mut out = v.join("; ");
+        if let Some(f) = *HUNG_NOTE.lock().unwrap() {
+            let n = f();
+            if !n.is_empty() {
+                out.push_str(" [");
+                out.push_str(&n);
+                out.push(']');
+            }
+        }
+        out
     }
 }
+
+/// scenario-specific classification appended to the list of operations in flight when a run
+/// hangs (used to recognise a listed known finding precisely)
+pub static HUNG_NOTE: std::sync::Mutex<Option<fn() -> String>> = std::sync::Mutex::new(None);
 
 impl OpGuard {
     pub fn done(self) {
